@@ -560,6 +560,85 @@ def mode_dask_classes(p):
     return {"reproduced": False, "cases": cases}
 
 
+def float_score(m, model, data, jfa):
+    """independent float64 formula of the ISV/JFA score at the machine's CURRENT U, V, D"""
+    U, Dv = np.asarray(m.U, float), np.asarray(m.D, float)
+    mu, sig = np.asarray(m.ubm.means, float).reshape(-1), np.asarray(m.ubm.variances, float).reshape(-1)
+    Dd = np.asarray(m.ubm.means).shape[1]
+    N = sum(np.asarray(s.n, float) for s in data)
+    F = sum(np.asarray(s.sum_px, float) for s in data).reshape(-1)
+    Tt = float(sum(s.t for s in data))
+    Ncd = np.repeat(N, Dd)
+    P = np.eye(U.shape[1]) + (U.T * (Ncd / sig)) @ U
+    x = np.linalg.solve(P, (U.T / sig) @ (F - Ncd * mu))
+    if jfa:
+        yv, z = model
+        client = mu + np.asarray(m.V, float) @ np.asarray(yv, float) + Dv * np.asarray(z, float).reshape(-1)
+    else:
+        client = mu + Dv * np.asarray(model, float).reshape(-1)
+    return float(np.sum((client - mu) / sig * (F - Ncd * (mu + U @ x))) / Tt)
+
+
+def mode_continued(p):
+    """C04 / C12: a trained machine that is USED (enrolment, scoring) and then trained further equals, under shared and under
+    serialised (isolated) tasks, the same history on lists -- no state is kept on the machine besides U, V, D (float64, rel. tol. 1e-9)"""
+    import dask
+    from bob.learn.em import ISVMachine, JFAMachine, GMMMachine, GMMStats
+    O.uninstall()
+    cases = 0
+    for kind in ("isv", "jfa"):
+        for trial in range(2):
+            rs = np.random.RandomState(SEED * 100 + 211 + cases)
+            C, D, rU, rV, ncls = 2, 2, 2, 1, 3
+            ubm = GMMMachine(C)
+            ubm.means, ubm.variances, ubm.weights = rs.normal(size=(C, D)), rs.uniform(0.5, 2, size=(C, D)), np.array([0.4, 0.6])
+            X, y = [], []
+            for k in range(ncls):
+                for _ in range(int(rs.randint(1, 4))):
+                    s = GMMStats(C, D)
+                    s.n = rs.uniform(1, 5, size=C)
+                    s.sum_px = s.n[:, None] * (rs.normal(size=(C, D)) + k)
+                    s.sum_pxx = s.n[:, None] * rs.uniform(1, 2, size=(C, D))
+                    s.t = int(s.n.sum()) + 1
+                    X.append(s)
+                    y.append(k)
+
+            def mk():
+                if kind == "isv":
+                    return ISVMachine(r_U=rU, em_iterations=2, ubm=ubm, random_state=3)
+                return JFAMachine(r_U=rU, r_V=rV, em_iterations=2, ubm=ubm, random_state=3)
+            ref = mk().fit(X, y)
+            ref.enroll(X[:2])
+            ref.score(ref.enroll(X[:1]), X[:1])
+            ref.fit(X, y)
+            # scoring after the continued training uses the CURRENT subspaces (independent float formula)
+            model = ref.enroll(X[:2])
+            got_score = float(ref.score(model, X[2:4]))
+            exp_score = float_score(ref, model, X[2:4], kind == "jfa")
+            cases += 1
+            if abs(got_score - exp_score) > 1e-8 * (1 + abs(exp_score)):
+                return {"reproduced": True, "cases": cases, "machine": kind, "observed": got_score, "expected": exp_score,
+                        "what": "%s score after fit / score / fit again is not the channel-compensated linear score under the machine's current U, V, D" % kind.upper()}
+            for sched_name, sched in (("shared", "synchronous"), ("serialised", serialising_get)):
+                yd = [np.array([l for l in y if l == k]) for k in range(ncls)]
+                got = mk()
+                with dask.config.set(scheduler=sched):
+                    got.fit([dask.delayed(list)([s for s, l in zip(X, y) if l == k]) for k in range(ncls)], yd)
+                got.enroll(X[:2])
+                got.score(got.enroll(X[:1]), X[:1])
+                with dask.config.set(scheduler=sched):
+                    got.fit([dask.delayed(list)([s for s, l in zip(X, y) if l == k]) for k in range(ncls)], yd)
+                cases += 1
+                for nm in ("_U", "_D") + (("_V",) if kind == "jfa" else ()):
+                    a, b = np.asarray(getattr(got, nm), float), np.asarray(getattr(ref, nm), float)
+                    if a.shape != b.shape or not np.all(np.abs(a - b) <= 1e-9 * (1 + np.abs(a) + np.abs(b))):
+                        return {"reproduced": True, "cases": cases, "machine": kind, "tasks": sched_name,
+                                "observed": float(np.max(np.abs(a - b))) if a.shape == b.shape else "shape",
+                                "what": "continued %s training (fit, enrol/score, fit again; %s tasks) differs from the same history on lists in %s "
+                                        "(state kept on the machine besides U, V, D)" % (kind.upper(), sched_name, nm.strip("_"))}
+    return {"reproduced": False, "cases": cases}
+
+
 def mode_perm_relabel(p):
     O.install()
     cases = 0
@@ -608,6 +687,21 @@ def mode_array_vs_list(p):
             for nm in ("_U", "_D") + (("_V",) if kind == "jfa" else ()):
                 if not np.allclose(np.asarray(getattr(got, nm), float), np.asarray(getattr(ref, nm), float), rtol=1e-8, atol=1e-10):
                     return {"reproduced": True, "cases": cases, "machine": kind, "chunks": list(chunks), "what": "fit_using_array on a Dask array differs from the NumPy result in " + nm.strip("_")}
+        # the same labelled multiset in another storage order (class ids not first appearing in ascending order) and with
+        # unequal class sizes: the trained model is a function of the labelled multiset
+        keep = np.r_[0:6, 6:10, 12:18]                      # class sizes 6, 4, 6
+        Xs, ys = X[keep], y[keep]
+        ref2 = mk().fit_using_array(Xs, ys)
+        for order in (np.r_[6:10, 10:16, 0:6], rs.permutation(len(ys))):
+            for arr in ("numpy", "dask"):
+                with dask.config.set(scheduler="synchronous"):
+                    Xo = Xs[order] if arr == "numpy" else da.from_array(Xs[order], chunks=(5, 5, 2))
+                    got = mk().fit_using_array(Xo, ys[order])
+                cases += 1
+                for nm in ("_U", "_D") + (("_V",) if kind == "jfa" else ()):
+                    if not np.allclose(np.asarray(getattr(got, nm), float), np.asarray(getattr(ref2, nm), float), rtol=1e-7, atol=1e-9):
+                        return {"reproduced": True, "cases": cases, "machine": kind, "input": arr, "label_order": ys[order].tolist(),
+                                "what": "fit_using_array (%s) depends on the storage order of the labelled samples in %s" % (arr, nm.strip("_"))}
     return {"reproduced": False, "cases": cases}
 
 
